@@ -193,9 +193,15 @@ def configs(tier, seed):
     for wrap in (0, 1, 2):
         for how in ("if", "enable"):
             out.append(dict(family="condwrap", wrap=wrap, how=how))
+    for how, rhow in (("if", "if"), ("enable", "enable"), ("if", "enable"), ("enable", "if")):  # BOTH sides of the Connect called conditionally
+        out.append(dict(family="condwrap", wrap=0, how=how, rhow=rhow))
+    out.append(dict(family="condwrap", wrap=1, how="if", rhow="if"))
     for how in ("plain", "if", "enable"):
         for conn in (False, True):
             out.append(dict(family="nested2", how=how, connect=conn))
+    for n in (1, 2, 3):  # chains of Connects T0 -> c0 -> T1 -> c1 ... whose first write / last read side has no caller at all
+        for missing in ("none", "last_read", "first_write"):
+            out.append(dict(family="uncalled", n=n, missing=missing))
     if tier == "quick":
         for nw, nr in ((1, 1), (2, 1), (1, 2), (2, 2)):
             for ex in (0, 1, 2):
@@ -345,6 +351,7 @@ def _make_condwrap(cfg):
         def __init__(self):
             self.c = Connect([("d", 2)], [("r", 2)])
             self.req_w, self.req_r, self.valid = Signal(name="req_w"), Signal(name="req_r"), Signal(name="valid")
+            self.valid_r = Signal(name="valid_r")
             self.arg_w, self.arg_r = Signal(2, name="arg_w"), Signal(2, name="arg_r")
             self.got_w, self.got_r = Signal(2, name="got_w"), Signal(2, name="got_r")
             self.run_w, self.run_r = Signal(name="run_w"), Signal(name="run_r")
@@ -372,11 +379,18 @@ def _make_condwrap(cfg):
                     m.d.top_comb += self.got_w.eq(tgt(m, d=self.arg_w, enable_call=self.valid).r)
             with Transaction(name="T_r").body(m, ready=self.req_r):
                 m.d.comb += self.run_r.eq(1)
-                m.d.top_comb += self.got_r.eq(self.c.read(m, r=self.arg_r).d)
+                rhow = cfg.get("rhow", "plain")
+                if rhow == "if":
+                    with m.If(self.valid_r):
+                        m.d.top_comb += self.got_r.eq(self.c.read(m, r=self.arg_r).d)
+                elif rhow == "enable":
+                    m.d.top_comb += self.got_r.eq(self.c.read(m, r=self.arg_r, enable_call=self.valid_r).d)
+                else:
+                    m.d.top_comb += self.got_r.eq(self.c.read(m, r=self.arg_r).d)
             return m
 
     d = D()
-    inputs = dict(req_w=d.req_w, req_r=d.req_r, valid=d.valid, arg_w=d.arg_w, arg_r=d.arg_r)
+    inputs = dict(req_w=d.req_w, req_r=d.req_r, valid=d.valid, valid_r=d.valid_r, arg_w=d.arg_w, arg_r=d.arg_r)
     observe = lambda d: {"run_w": d.run_w, "run_r": d.run_r, "got_w": d.got_w, "got_r": d.got_r, "w.run": d.c.write.run, "r.run": d.c.read.run}
     return Harness(d, {}, inputs=inputs, observe=observe)
 
@@ -388,13 +402,16 @@ def _run_condwrap(cfg, ctx):
         raise
     except Exception as e:  # the library refuses the design: the safe outcome, nothing to prove
         ctx.notes["condwrap_rejected_by_library"] = ctx.notes.get("condwrap_rejected_by_library", 0) + 1
-        ctx._record(f"condwrap wrap={cfg['wrap']} {cfg['how']}: design refused at elaboration ({type(e).__name__}) - accepted outcome", "obligation", "unsat", 0.0)
+        ctx._record(f"condwrap wrap={cfg['wrap']} {cfg['how']}{' reader ' + cfg['rhow'] if cfg.get('rhow') else ''}: design refused at elaboration ({type(e).__name__}) - accepted outcome", "obligation", "unsat", 0.0)
         return
     u = Unroll(b, free_init=True)
     o = u.cycle()
     ctx.frames += 1
     B = lambda n: o.sig(n) == 1
-    tag = f"condwrap wrap={cfg['wrap']} {cfg['how']}"
+    tag = f"condwrap wrap={cfg['wrap']} {cfg['how']}" + (f", reader side {cfg['rhow']}" if cfg.get("rhow") else "")
+    if cfg.get("rhow"):
+        ctx.witness(f"{tag}: both transactions run with exactly one of the two calls enabled", [B("run_w"), B("run_r"), o.sig("valid") != o.sig("valid_r")])
+        ctx.prove(f"{tag}: Connect.read runs only when its conditional call is enabled", [], z3.Implies(B("r.run"), B("valid_r")), u)
     ctx.witness(f"{tag}: producer runs with the call disabled", [B("run_w"), o.sig("valid") == 0])
     ctx.prove(f"{tag}: Connect.read and Connect.write run in exactly the same cycles", [], B("r.run") == B("w.run"), u)
     ctx.prove(f"{tag}: Connect.write runs only when its conditional call is enabled and the producer runs", [], z3.Implies(B("w.run"), z3.And(B("run_w"), B("valid"))), u)
@@ -488,7 +505,88 @@ def _run_nested2(cfg, ctx):
         ctx.prove(f"{tag}: Connect.write executes exactly when its caller 'inner' runs", [], B("w") == B("inner"), u)
 
 
+def _make_chain(cfg):
+    """n Connects in a row; transaction T_i reads c_{i-1} and writes c_i.  `missing`: the read side of the last Connect
+    (or the write side of the first one) is called by nobody, so that method never runs."""
+    from amaranth import Elaboratable, Signal
+    from transactron import TModule, Transaction
+    from transactron.lib import Connect
+
+    n, missing = cfg["n"], cfg["missing"]
+
+    class D(Elaboratable):
+        def __init__(self):
+            self.cs = [Connect([("d", 2)]) for _ in range(n)]
+            self.req = [Signal(name=f"req{i}") for i in range(n + 1)]
+            self.run = [Signal(name=f"run{i}") for i in range(n + 1)]
+            self.arg = Signal(2, name="arg")
+            self.got = [Signal(2, name=f"got{i}") for i in range(n + 1)]
+
+        def elaborate(self, platform):
+            m = TModule()
+            for i, c in enumerate(self.cs):
+                m.submodules[f"c{i}"] = c
+            for i in range(n + 1):
+                reads = i > 0 and not (i == n and missing == "last_read")
+                writes = i < n and not (i == 0 and missing == "first_write")
+                if not reads and not writes:
+                    continue
+                with Transaction(name=f"T{i}").body(m, ready=self.req[i]):
+                    m.d.comb += self.run[i].eq(1)
+                    data = self.arg
+                    if reads:
+                        data = self.cs[i - 1].read(m).d
+                        m.d.top_comb += self.got[i].eq(data)
+                    if writes:
+                        self.cs[i].write(m, d=data)
+            return m
+
+    d = D()
+    inputs = {f"req{i}": d.req[i] for i in range(n + 1)}
+    inputs["arg"] = d.arg
+
+    def observe(d):
+        out = {}
+        for i, c in enumerate(d.cs):
+            out[f"w{i}"], out[f"r{i}"] = c.write.run, c.read.run
+        for i in range(n + 1):
+            out[f"run{i}"], out[f"got{i}"] = d.run[i], d.got[i]
+        return out
+
+    return Harness(d, {}, inputs=inputs, observe=observe)
+
+
+def _run_chain(cfg, ctx):
+    n, missing = cfg["n"], cfg["missing"]
+    tag = f"chain of {n} Connect(s), uncalled side: {missing}"
+    try:
+        b = Built(lambda: _make_chain(cfg))
+    except HarnessError:
+        raise
+    except Exception as e:  # refused at elaboration: acceptable (nothing runs)
+        ctx._record(f"{tag}: design refused at elaboration ({type(e).__name__}) - accepted outcome", "obligation", "unsat", 0.0)
+        return
+    u = Unroll(b, free_init=True)
+    o = u.cycle()
+    ctx.frames += 1
+    B = lambda nm: o.sig(nm) == 1
+    if missing == "none":
+        ctx.witness(f"{tag}: the whole chain runs", [B(f"w{i}") for i in range(n)])
+    for i in range(n):
+        ctx.prove(f"{tag}: Connect {i}: read and write run in exactly the same cycles", [], B(f"r{i}") == B(f"w{i}"), u)
+    if missing == "last_read":
+        ctx.prove(f"{tag}: the Connect whose read side has no caller never runs its write side", [], z3.Not(B(f"w{n - 1}")), u)
+    if missing == "first_write":
+        ctx.prove(f"{tag}: the Connect whose write side has no caller never runs its read side", [], z3.Not(B("r0")), u)
+    if missing == "none":
+        for i in range(1, n + 1):
+            ctx.prove(f"{tag}: the argument travels to reader {i} in the same cycle", [], z3.Implies(B(f"r{i - 1}"), o.sig(f"got{i}") == o.sig("arg")), u)
+        ctx.prove(f"{tag}: the chain runs exactly when all its transactions request", [], B("w0") == z3.And(*[B(f"req{i}") for i in range(n + 1)]), u)
+
+
 def run(cfg, ctx):
+    if cfg.get("family") == "uncalled":
+        return _run_chain(cfg, ctx)
     if cfg.get("family") == "condwrap":
         return _run_condwrap(cfg, ctx)
     if cfg.get("family") == "nested2":
